@@ -512,7 +512,7 @@ theorem map_shift (a : Nat) (o l : List Nat) (h : ∀ x ∈ l, 1 ≤ x) :
     rw [show x = (x - 1) + 1 by omega, getD'_cons_succ]; simp
 
 theorem selection_sublist (orig pos : List Nat) (hpw : pos.Pairwise (· < ·))
-    (hr : ∀ i ∈ pos, i < orig.length) : pos.map (fun n => getD' orig n 0) <+ orig := by
+    (hr : ∀ i ∈ pos, i < orig.length) : List.Sublist (pos.map (fun n => getD' orig n 0)) orig := by
   induction orig generalizing pos with
   | nil =>
     cases pos with
@@ -524,7 +524,7 @@ theorem selection_sublist (orig pos : List Nat) (hpw : pos.Pairwise (· < ·))
     | cons p ps =>
       obtain ⟨hp, hps⟩ := List.pairwise_cons.1 hpw
       have shifted : ∀ l : List Nat, l.Pairwise (· < ·) → (∀ x ∈ l, 1 ≤ x ∧ x < (a :: o).length) →
-          l.map (fun n => getD' (a :: o) n 0) <+ o := by
+          List.Sublist (l.map (fun n => getD' (a :: o) n 0)) o := by
         intro l hl hlr
         rw [map_shift a o l (fun x hx => (hlr x hx).1)]
         apply ih
@@ -549,13 +549,13 @@ theorem selection_sublist (orig pos : List Nat) (hpw : pos.Pairwise (· < ·))
             · have := hp x hx; omega, hr x hx⟩)).cons a
 
 theorem good_sublist (orig : List Nat) (k : Nat) (v : List Nat) (h : Good orig k v) :
-    v <+ orig ∧ v.length = k := by
+    List.Sublist v orig ∧ v.length = k := by
   obtain ⟨pos, h1, h2, h3, rfl⟩ := h
   exact ⟨selection_sublist orig pos h1 h2, by simpa using h3⟩
 
-theorem sublist_good (orig v : List Nat) (h : v <+ orig) : Good orig v.length v := by
+theorem sublist_good (orig v : List Nat) (h : List.Sublist v orig) : Good orig v.length v := by
   induction h with
-  | slnil => exact ⟨[], List.Pairwise.nil, fun i hi => by cases hi, rfl, rfl⟩
+  | slnil => exact ⟨[], List.Pairwise.nil, fun i hi => (by cases hi), rfl, rfl⟩
   | @cons v o a h ih =>
     obtain ⟨pos, h1, h2, h3, h4⟩ := ih
     refine ⟨pos.map (· + 1), ?_, ?_, by simpa using h3, ?_⟩
@@ -570,7 +570,7 @@ theorem sublist_good (orig v : List Nat) (h : v <+ orig) : Good orig v.length v 
       apply List.map_congr_left
       intro x _
       simp [getD'_cons_succ]
-  | @cons₂ v o a h ih =>
+  | @cons_cons v o a h ih =>
     obtain ⟨pos, h1, h2, h3, h4⟩ := ih
     refine ⟨0 :: pos.map (· + 1), ?_, ?_, by simpa using h3, ?_⟩
     · refine List.pairwise_cons.2 ⟨fun x hx => ?_, ?_⟩
@@ -588,10 +588,6 @@ theorem sublist_good (orig v : List Nat) (h : v <+ orig) : Good orig v.length v 
       have h0 : getD' (a :: o) 0 0 = a := by simp [getD']
       rw [h0]
       congr 1
-      conv_lhs => rw [h4]
-      apply List.map_congr_left
-      intro x _
-      simp [getD'_cons_succ]
 
 /-! ### the whole iteration is complete -/
 
@@ -622,7 +618,7 @@ is among the collected outputs; together with `combinations_spec` the outputs ar
 each once. -/
 theorem combinations_complete (original : List Nat) (k : Nat) (outs : List (List Nat))
     (h : combinations original k = .ok outs) :
-    ∀ w, w <+ sortNat original → w.length = k → w ∈ outs := by
+    ∀ w, List.Sublist w (sortNat original) → w.length = k → w ∈ outs := by
   intro w hsub hwk
   have hgood : Good (sortNat original) k w := by rw [← hwk]; exact sublist_good _ _ hsub
   have hspec := combinations_spec original k outs h
@@ -651,7 +647,7 @@ theorem combinations_complete (original : List Nat) (k : Nat) (outs : List (List
       omega
     rw [← h] at hlenlt ⊢
     have hF : 2 ^ original.length = (2 ^ original.length - 1) + 1 := by
-      have : 0 < 2 ^ original.length := Nat.pos_of_ne_zero (by positivity)
+      have : 0 < 2 ^ original.length := Nat.two_pow_pos _
       omega
     rw [hF] at hlenlt ⊢
     have hnext : c.next = (some ({ c with started := true } : Comb).insert, { c with started := true }) := by
